@@ -2,6 +2,7 @@
 // small-integer matrix lattices, with exact rational classification (Bareiss minors) and __float128
 // reconstruction.  DESIGN.md §4.C08.
 #include "../engine/grid.hpp"
+#include <limits>
 #include <quadmath.h>
 #include <cmath>
 #include <cfloat>
@@ -18,10 +19,15 @@ static grid::Run R;
 #if A_SIZE_REAL + 0 == 4
 static const double EPS = FLT_EPSILON, RMIN_ = FLT_MIN;
 static const int BIGSCALE = 60, SMALLSCALE = 20, UNISCALE = 50;
+#elif A_SIZE_REAL + 0 == 16
+static const double EPS = LDBL_EPSILON, RMIN_ = DBL_MIN;
+static const int BIGSCALE = 200, SMALLSCALE = 20, UNISCALE = 700; // uniform scaling by 2^+-1400: beyond the range of a double, inside a long double's (and order 10 stays inside __float128)
 #else
 static const double EPS = DBL_EPSILON, RMIN_ = DBL_MIN;
 static const int BIGSCALE = 200, SMALLSCALE = 20, UNISCALE = 300;
 #endif
+static bool fin(a_real v) { return std::isfinite(v); }                                                   // finite in the library's own real type
+static bool fits(Q q) { return fabsq(q) <= (Q)std::numeric_limits<a_real>::max(); }                    // representable (no overflow) in that type
 static std::string num(double v)
 {
     char b[40];
@@ -49,7 +55,7 @@ struct Mat
     int n;
     std::vector<long> e;   // integer entries
     std::vector<int> rs, cs; // power-of-two row / column scalings (exponents)
-    a_real at(int i, int j) const { return (a_real)std::ldexp((double)e[(size_t)(i * n + j)], rs[(size_t)i] + cs[(size_t)j]); }
+    a_real at(int i, int j) const { return (a_real)ldexpl((long double)e[(size_t)(i * n + j)], rs[(size_t)i] + cs[(size_t)j]); }
     std::string json() const
     {
         std::string s = "{\"n\":" + std::to_string(n) + ",\"entries\":[";
@@ -152,7 +158,7 @@ static void check_plu(const Mat &M, const std::vector<std::vector<long>> &rhs)
         for (int j = 0; j < n; ++j)
         {
             a_real v = A.p()[i * n + j];
-            if (!std::isfinite((double)v)) { R.viol(cls + "|not-finite", "a factor entry is not finite", in); return; }
+            if (!fin(v)) { R.viol(cls + "|not-finite", "a factor entry is not finite", in); return; }
             if (j < i)
             {
                 L[(size_t)(i * n + j)] = v;
@@ -282,14 +288,15 @@ static void check_plu(const Mat &M, const std::vector<std::vector<long>> &rhs)
         Q scale = 1;
         for (int i = 0; i < n; ++i) { Q rsum = 0; for (int j = 0; j < n; ++j) { rsum += absLU[(size_t)(i * n + j)]; } scale *= rsum; }
         Q tol = 16 * n * n * (Q)EPS * scale;
-        if (std::isfinite((double)det) && std::isfinite((double)exact) && (exact == 0 || fabsq(exact) >= (Q)RMIN_) && !(fabsq((Q)det - exact) <= tol + 4 * n * (Q)EPS * fabsq(exact))) { R.viol(cls + "|det", "a_real_plu_det = " + num((double)det) + " but the exact determinant is " + num((double)exact), in); return; }
-        if (det_int != 0 && std::isfinite((double)ln))
+        if (fin(det) && fits(exact) && (exact == 0 || fabsq(exact) >= (Q)RMIN_) && !(fabsq((Q)det - exact) <= tol + 4 * n * (Q)EPS * fabsq(exact))) { R.viol(cls + "|det", "a_real_plu_det = " + num((double)det) + " but the exact determinant is " + num((double)exact), in); return; }
+        if (det_int != 0 && !fin(ln)) { R.viol(cls + "|lndet|not-finite", "a_real_plu_lndet = " + num((double)ln) + " although the matrix is nonsingular: the sum of the logarithms of the pivots cannot overflow", in); return; }
+        if (det_int != 0 && fin(ln))
         {
             Q lnx = logq(fabsq(exact));
             if (!(fabsq((Q)ln - lnx) <= 64 * n * (Q)EPS * (1 + fabsq(lnx)) + tol / fabsq(exact))) { R.viol(cls + "|lndet", "a_real_plu_lndet = " + num((double)ln) + " but ln|det| = " + num((double)lnx), in); return; }
             if (fabsq(exact) > tol && sg != (exact > 0 ? 1 : -1)) { R.viol(cls + "|sgndet", "a_real_plu_sgndet = " + std::to_string(sg) + " but the determinant is " + num((double)exact), in); return; }
         }
-        if (std::isfinite((double)det) && det != 0 && sg != (det > 0 ? 1 : -1)) { R.viol(cls + "|sgndet-vs-det", "a_real_plu_sgndet disagrees with the sign of a_real_plu_det", in); return; }
+        if (fin(det) && det != 0 && sg != (det > 0 ? 1 : -1)) { R.viol(cls + "|sgndet-vs-det", "a_real_plu_sgndet disagrees with the sign of a_real_plu_det", in); return; }
     }
 }
 
@@ -343,7 +350,7 @@ static void check_sym(const Mat &M, const std::vector<std::vector<long>> &rhs, b
         for (int j = 0; j <= i; ++j)
         {
             a_real v = A.p()[i * n + j];
-            if (!std::isfinite((double)v)) { R.viol(cls + "|not-finite", "a factor entry is not finite", in); return; }
+            if (!fin(v)) { R.viol(cls + "|not-finite", "a factor entry is not finite", in); return; }
             if (j < i) { L[(size_t)(i * n + j)] = v; }
             else if (chol) { L[(size_t)(i * n + i)] = v; if (!(v > 0)) { R.viol(cls + "|diagonal", "a Cholesky diagonal entry is not strictly positive", in); return; } }
             else { L[(size_t)(i * n + i)] = 1; D[(size_t)i] = v; }
@@ -434,9 +441,9 @@ static void check_sym(const Mat &M, const std::vector<std::vector<long>> &rhs, b
         Q scale = 1;
         for (int i = 0; i < n; ++i) { Q rsum = 0; for (int j = 0; j < n; ++j) { rsum += absprod(i, j); } scale *= rsum; }
         Q tol = 16 * n * n * (Q)EPS * scale;
-        if (std::isfinite((double)det) && std::isfinite((double)exact) && (exact == 0 || fabsq(exact) >= (Q)RMIN_) && !(fabsq((Q)det - exact) <= tol + 8 * n * (Q)EPS * fabsq(exact))) { R.viol(cls + "|det", std::string("a_real_") + name + "_det = " + num((double)det) + " but the exact determinant is " + num((double)exact), in); return; }
-        if (exact != 0 && !std::isfinite((double)ln)) { R.viol(cls + "|lndet|not-finite", std::string("a_real_") + name + "_lndet = " + num((double)ln) + " although ln|det| = " + num((double)logq(fabsq(exact))) + " is finite (the sum of the logarithms of the pivots cannot overflow)", in); return; }
-        if (exact != 0 && std::isfinite((double)ln))
+        if (fin(det) && fits(exact) && (exact == 0 || fabsq(exact) >= (Q)RMIN_) && !(fabsq((Q)det - exact) <= tol + 8 * n * (Q)EPS * fabsq(exact))) { R.viol(cls + "|det", std::string("a_real_") + name + "_det = " + num((double)det) + " but the exact determinant is " + num((double)exact), in); return; }
+        if (exact != 0 && !fin(ln)) { R.viol(cls + "|lndet|not-finite", std::string("a_real_") + name + "_lndet = " + num((double)ln) + " although ln|det| = " + num((double)logq(fabsq(exact))) + " is finite (the sum of the logarithms of the pivots cannot overflow)", in); return; }
+        if (exact != 0 && fin(ln))
         {
             Q lnx = logq(fabsq(exact));
             if (!(fabsq((Q)ln - lnx) <= 64 * n * (Q)EPS * (1 + fabsq(lnx)) + tol / fabsq(exact))) { R.viol(cls + "|lndet", std::string("a_real_") + name + "_lndet = " + num((double)ln) + " but ln|det| = " + num((double)lnx), in); return; }
